@@ -32,7 +32,7 @@ def run(tier, replay=None):
     sozu_compose.run_leg(rep, tier, PID, replay)
     bins = vlib.cargo_build(["replay_config"] + cc.drive_bins(worker=True))
     thorough = tier == "thorough"
-    inv = ["TypeOK", "P_C07", "P_C07_Worker"]
+    inv = ["TypeOK", "P_C07", "P_C07_Worker", "P_C07_Master"]
 
     if replay and replay.endswith(".json"):
         cc.explain_replay(bins, replay)
